@@ -4,6 +4,7 @@ import json, os
 from vp import val, coqrun, rustrun
 from vp.val import cN, cbool, clist, cpair
 from vp.util import VERIF
+from gen import c13conn
 
 MODEL_ENTRY = 'run_case'
 
@@ -98,28 +99,40 @@ class Prop:
     props_file = 'Props/C13.v'
     required_theorems = []
     correspondence_name = ('Model/RtrClient.v run_case (RtrCodec::decode + Framed loop + serve_inner + TableManager::rpki_*) vs '
-                           'daemon/src/rpki.rs RpkiClient::serve_inner driven over tokio::io::duplex (harness/daemon/rpki_hx.rs)')
+                           'daemon/src/rpki.rs RpkiClient::serve_inner driven over tokio::io::duplex (harness/daemon/rpki_hx.rs); '
+                           'Model/RtrConn.v run_conn_case (try_connect task + add/delete/enable/disable/reset_rpki around the session model) vs '
+                           'the real GrpcService API functions and the real try_connect task talking to a loopback TCP cache (harness/daemon/grpc_hx.rs verif_rpki_conn_cases)')
     rule = ('a case is one or two RTR sessions sharing a table: per session a byte stream cut into TCP segments, soft resets, close, cancel; '
             'non-trivial when some session receives at least two End-of-Data PDUs with payload PDUs in the incremental round, or payload PDUs of a type the client does not use, '
-            'or ends while holding VRPs; distinct = distinct (PDU type sequence per session, segment boundaries classes, event kinds)')
+            'or ends while holding VRPs; distinct = distinct (PDU type sequence per session, segment boundaries classes, event kinds); '
+            'a connection-layer case (kind conn) is a history of API calls (add, delete, enable, disable, hard / soft reset), TCP segments and closes of the cache; '
+            'non-trivial when a session that holds VRPs after an End of Data is ended through the API')
     exhaustive = {'quick': False, 'thorough': False}
     trusted_base = ['tokio::select! is modelled as: run until the stream is Pending, then serve a stored soft-reset permit (the harness polls the future by hand, '
                     'so Pending is exactly "nothing more to consume"); cancellation and close are delivered when no data is pending',
                     'Framed is modelled as append-then-decode-until-None; decode_eof at close is modelled as leaving the loop',
                     'uptime/downtime wall-clock fields and the per-type counters other than end_of_data are not observed',
-                    'RpkiClient::try_connect / serve (TCP connect, retry timers) are outside the model']
+                    'connection layer (Model/RtrConn.v): one operation of the model is the API call or cache event TOGETHER with what the woken tasks do until they wait again '
+                    '(the old task\'s cleanup, the new task\'s connect and Reset Query); the harness waits for exactly those events (EOF of the old connection, accept of the new one, '
+                    'the RpkiState PDU counters reaching the number of PDUs sent) before it observes; the cleanup of an old session and the start of the next touch different source identities',
+                    'which select! branch sees a cancellation first cannot be chosen by the harness: the enumerated connection classes end sessions 1 and 4 times per case and the corpus case 6 times, '
+                    'so the pre-repair race (lost with probability about 1/2 per cancellation) is exhibited by many cases of every run',
+                    'the 10 s retry sleep of try_connect is a model operation (OTimer) covered by the theorems but not driven in the correspondence (real time); connect failures / the 5 s connect timeout are not modelled']
     assumptions = ['the cache is conforming (RFC 6810/8210): payload PDUs only between Cache Response and End of Data, only announcements before the first End of Data, '
                    'every PDU length field >= 8 and equal to the PDU size; other streams are compared with the model but not judged by the fold oracle',
                    'a soft reset requested before the first End-of-Data is served when the client next goes idle (the order relative to PDUs already buffered is a tokio::select! choice)']
 
     # ---- rendering
     def case_to_val(self, c):
+        if c.get('kind') == 'conn': return c13conn.case_to_val(c)
         return [c['n'], [[net_to_val(n), mx, a] for n, mx, a in c['pre']], [ev_to_val(e) for e in c['evs']]]
     def case_to_coq(self, c):
+        if c.get('kind') == 'conn': return c13conn.case_to_coq(c)
         pre = clist(['(%s, %s, %s)' % (net_to_coq(n), cN(mx), cN(a)) for n, mx, a in c['pre']])
         return '%s %s %s %s' % (MODEL_ENTRY, cN(c['n']), pre, clist([ev_to_coq(e) for e in c['evs']]))
     def case_to_json(self, c): return json.loads(json.dumps(c))
     def case_from_json(self, j):
+        if j.get('kind') == 'conn': return c13conn.case_from_json(j)
         c = dict(j)
         c['pre'] = [(tup(n), mx, a) for n, mx, a in j['pre']]
         c['evs'] = [tuple(e) for e in j['evs']]
@@ -392,22 +405,37 @@ class Prop:
         nc, nn = int(nc * sc), int(nn * sc)
         for _ in range(nc): cases.append(self.gen_case(rng, tier, True))
         for _ in range(nn): cases.append(self.gen_case(rng, tier, False))
+        # the connection task and the API around serve_inner (real TCP, real tasks)
+        cases += c13conn.gen_cases(rng, tier)
         return cases
 
     # ---- running
     def run_impl(self, cases, tier):
-        return rustrun.daemon_test('C13', 'rpki::verif_hx::verif_rpki_cases', [self.case_to_val(c) for c in cases])
+        ic = [k for k, c in enumerate(cases) if c.get('kind') == 'conn']
+        it = [k for k, c in enumerate(cases) if c.get('kind') != 'conn']
+        out = [None] * len(cases)
+        if it:
+            r, err = rustrun.daemon_test('C13', 'rpki::verif_hx::verif_rpki_cases', [self.case_to_val(cases[k]) for k in it])
+            if r is None: return None, err
+            for k, o in zip(it, r): out[k] = o
+        if ic:
+            r, err = rustrun.daemon_test('C13conn', 'event::grpc::verif_hx::verif_rpki_conn_cases', [self.case_to_val(cases[k]) for k in ic])
+            if r is None: return None, err
+            for k, o in zip(ic, r): out[k] = o
+        return out, ''
 
     def run_model(self, cases, tier):
-        pre = 'From RB Require Import Base.Val Model.Rpki Model.RtrClient.\nOpen Scope N_scope.'
+        pre = 'From RB Require Import Base.Val Model.Rpki Model.RtrClient Model.RtrConn.\nOpen Scope N_scope.'
         return coqrun.eval_terms('C13', pre, [self.case_to_coq(c) for c in cases])
 
     def canon(self, case, obs):
+        if case.get('kind') == 'conn': return c13conn.canon(case, obs)
         if obs == [-1]: return obs
         return [[o[0], o[1], sorted(o[2]), o[3]] if o != [-1] else o for o in obs]
 
     # ---- Spec oracle: the property text evaluated on the implementation's observations
     def failures(self, c, obs):
+        if c.get('kind') == 'conn': return c13conn.failures(c, obs)
         if obs == [-1]: return [(-1, 'panic', 'panic in the RTR client')]
         fails = []
         n = c['n']
@@ -528,6 +556,7 @@ class Prop:
         return tuple(out)
 
     def nontrivial_key(self, c, obs):
+        if c.get('kind') == 'conn': return c13conn.nontrivial_key(c, obs)
         if obs == [-1]: return ('panic',)
         sh = self.shape(c)
         ok = False
@@ -541,6 +570,7 @@ class Prop:
         return (sh, cuts)
 
     def classify(self, c, obs):
+        if c.get('kind') == 'conn': return c13conn.classify(c, obs)
         tags = ['kind_' + c.get('kind', '?'), 'sessions_%d' % c['n']]
         if c.get('cls'): tags.append('enum_' + c['cls'])
         if obs != [-1] and any(o != [-1] and any(o[0]) for o in obs): tags.append('session_ended')
@@ -562,4 +592,5 @@ class Prop:
 Prop.required_theorems = [
     'installed_eq_fold_at_eod', 'installed_eq_fold_pre_refuted', 'apply_evs_runs_pdus', 'rtr_fragmentation_invariant',
     'rtr_idle_buffer_incomplete', 'rtr_client_progress', 'rtr_client_progress_pre_refuted', 'caches_isolated', 'session_end_clears',
+    'conn_only_live_session', 'conn_no_session_no_vrps', 'conn_foreign_untouched', 'conn_cancel_race_pre_refuted',
 ]
